@@ -338,12 +338,16 @@ class Context(MutableMapping[Identifier, Symbol]):
 
         # BFS the unseen starred imports
         for starred in queue:
+            # NOTE
+            # A nested starred import is written in the file it was found in, its
+            # diagnostics belong to that file
             if starred.origin is None:
-                error.error(
-                    f"unable to resolve import {starred.name!r} while expanding "
-                    f"{starred.code()!r}",
-                    culprit=starred,
-                )
+                with enter_file(starred.location.defined_in):
+                    error.error(
+                        f"unable to resolve import {starred.name!r} while expanding "
+                        f"{starred.code()!r}",
+                        culprit=starred,
+                    )
                 continue
 
             if starred.origin in seen:
@@ -351,11 +355,12 @@ class Context(MutableMapping[Identifier, Symbol]):
 
             # NOTE Builtin and extension modules have no Python source to expand
             if starred.origin.suffix != ".py" or not starred.origin.is_file():
-                error.error(
-                    f"unable to expand {starred.code()!r}, the module "
-                    f"{starred.module_name!r} has no Python source",
-                    culprit=starred,
-                )
+                with enter_file(starred.location.defined_in):
+                    error.error(
+                        f"unable to expand {starred.code()!r}, the module "
+                        f"{starred.module_name!r} has no Python source",
+                        culprit=starred,
+                    )
                 continue
 
             # Visit node
